@@ -151,7 +151,7 @@ let with_async = Array.length Sys.argv > 1 && Sys.argv.(1) = "async"
 
 (* the byte-level run is made when  reads * (largest buffer offered + input length) <= spy_max_work  and the input is short *)
 let spy_max_len = 131072
-let spy_max_work = 2000000
+let spy_max_work = 1200000
 let byte_z = Array.init 256 z_of_int
 
 let () =
